@@ -51,6 +51,11 @@ func GenFlow(rng *rand.Rand, o GenOpts) *FlowP {
 		case o.Modifier:
 		case f.Generic && rng.Intn(2) == 0:
 			spec = TypeSpec{Kind: TParam}
+		case rng.Intn(12) == 0:
+			spec = TypeSpec{Kind: TAnon}
+		case rng.Intn(14) == 0 && !usedBasic[100]:
+			usedBasic[100] = true
+			spec = TypeSpec{Kind: TBytes}
 		case rng.Intn(7) == 0:
 			// a predeclared type; every flow type must be a distinct Go type
 			if x := rng.Intn(len(BasicNames)); !usedBasic[x] {
